@@ -382,6 +382,7 @@ public:
       std::thread movedThread;
       std::thread::id threadId;
       bool found = false;
+      bool spawnInFlight = false;
 
       {
         std::lock_guard<std::mutex> lock(_mutex);
@@ -398,10 +399,22 @@ public:
             break;
           }
         }
+        if (!found)
+        {
+          spawnInFlight = _pendingSpawns > 0;
+        }
       }
 
       if (!found)
       {
+        if (spawnInFlight)
+        {
+          // enqueue() has created a worker thread that is not registered in
+          // _threads yet. It may already hold an accepted task, so shutdown must
+          // not complete without it: wait for the registration and join it too.
+          std::this_thread::sleep_for(std::chrono::milliseconds(1));
+          continue;
+        }
         break; // No more joinable threads
       }
 
